@@ -1,6 +1,10 @@
 package streamreader
 
-import "bytes"
+import (
+	"bytes"
+	"errors"
+	"io"
+)
 
 //go:generate mockgen -source reader.go -destination mocks/mocks.go -typed true
 
@@ -27,6 +31,11 @@ func (r *reader[T]) Read(p []byte) (int, error) {
 	for len(p) > r.buf.Len() {
 		resp, err := r.stream.Recv()
 		if err != nil {
+			if !errors.Is(err, io.EOF) {
+				// the stream broke or was cancelled: this is not the end of the content
+				return 0, err
+			}
+
 			break
 		}
 
